@@ -88,7 +88,7 @@ def registrations(prog, cls):
 
     def flat(evs):
         for e in evs:
-            if e[0] == 'loop':
+            if e[0] in ('loop', 'branch'):
                 for k_, c_, sub in e[1][1]:
                     for x in flat(sub):
                         yield x
